@@ -68,7 +68,7 @@ func (c18) Phases() []kit.Phase {
 var c18Specs = []string{"xfx", "xfy", "yfx", "fy", "fx", "xf", "yf"}
 var c18Pool = []string{"foo", "bar", "+++", "==>", "mod", "-", "*", "#"}
 var c18Special = []string{"','", "'|'", "[]", "{}"}
-var c18Prios = []int{0, 1, 200, 700, 999, 1000, 1001, 1200}
+var c18Prios = []int{0, 1, 200, 700, 999, 1000, 1001, 1050, 1200}
 
 func c18Class(spec string) string {
 	switch spec {
@@ -236,17 +236,31 @@ func c18Gen(r *kit.Run) []c18Op {
 				if g.Choose(2) == 0 {
 					o := c18Op{Kind: "op", P: fmt.Sprint(c18Prios[g.Choose(len(c18Prios))]), S: c18Specs[g.Choose(len(c18Specs))]}
 					o.Names = []string{c18Pool[g.Choose(len(c18Pool))]}
+					if g.Choose(8) == 0 {
+						o.Names = []string{"'|'"}
+						o.S = []string{"xfx", "xfy", "yfx"}[g.Choose(3)]
+						o.P = []string{"1001", "1050", "1200", "0"}[g.Choose(4)]
+					}
 					if g.Choose(3) == 0 {
 						o.List = true
 						o.Names = append([]string{c18Pool[g.Choose(len(c18Pool))]}, o.Names...)
 					}
 					last = o.Names[len(o.Names)-1]
+					if last == "'|'" {
+						last = "|" // in operator position the bar is written bare
+					}
 					tx.Steps = append(tx.Steps, o)
 					continue
 				}
 				c := c18Op{Kind: "clause", Shape: c18Shapes[g.Choose(len(c18Shapes))], N: c18Pool[g.Choose(len(c18Pool))], M: c18Pool[g.Choose(len(c18Pool))]}
 				if last != "" && g.Choose(3) > 0 {
 					c.N = last // the name the preceding directive touched
+				}
+				if c.Shape == "mixed" && g.Choose(4) == 0 {
+					c.M = "|" // the bar as an infix operator next to another one
+					if g.Choose(2) == 0 {
+						c.N, c.M = c.M, c.N
+					}
 				}
 				tx.Steps = append(tx.Steps, c)
 			}
@@ -352,6 +366,30 @@ func (o c18Op) goal() string {
 		return "text{" + sb.String() + "}"
 	}
 	return "probe(" + o.N + ")"
+}
+
+// c18Determinate returns what '1 N 2 M 3' denotes when N and M are infix operators whose priorities are two or more
+// apart: the operator of lower priority is the argument of the other one, whatever the specifiers say ("" otherwise).
+func c18Determinate(t c18Table, o c18Op) string {
+	if o.Shape != "mixed" {
+		return ""
+	}
+	vn, okn := t[[2]string{o.N, "infix"}]
+	vm, okm := t[[2]string{o.M, "infix"}]
+	if !okn || !okm {
+		return ""
+	}
+	pn, pm := 0, 0
+	fmt.Sscanf(vn[0], "%d", &pn)
+	fmt.Sscanf(vm[0], "%d", &pm)
+	f := func(n string, args ...string) string { return kit.AtomText(n) + "(" + strings.Join(args, ",") + ")" }
+	switch {
+	case pm-pn >= 2:
+		return f(o.M, f(o.N, "1", "2"), "3")
+	case pn-pm >= 2:
+		return f(o.N, "1", f(o.M, "2", "3"))
+	}
+	return ""
 }
 
 // c18Readable says whether a probe clause can be read at all: every name it uses in operator position must have an
@@ -585,6 +623,10 @@ func (c18) Exec(r *kit.Run) {
 				}
 				if len(twinNotes) != k+1 {
 					kit.Bug("c18 twin: clause %s reported %v", st.goal(), twinNotes[k:])
+				}
+				if want := c18Determinate(next, st); want != "" && twinNotes[k] != want {
+					r.Fail("read-uses-other-table", "clause-read-against-priorities:"+st.Shape, "%s was read as %s by a new parser; with the priorities the table has for %s and %s (two or more apart, so that associativity plays no part) it denotes %s (history: %s)", st.goal(), twinNotes[k], st.N, st.M, want, strings.Join(texts[:i], ", "))
+					return
 				}
 				if !c18Readable(next, st) {
 					r.Fail("read-uses-other-table", "clause-read-without-operator:"+st.Shape, "%s was read as %s by a new parser although the table has no operator for a name it uses as one (history: %s)", st.goal(), twinNotes[k], strings.Join(texts[:i], ", "))
